@@ -618,7 +618,7 @@ def https(
     r = dns.message.from_wire(
         response.content,
         keyring=q.keyring,
-        request_mac=q.request_mac,
+        request_mac=q.mac,
         one_rr_per_rrset=one_rr_per_rrset,
         ignore_trailing=ignore_trailing,
     )
@@ -705,7 +705,7 @@ def _http3(
     r = dns.message.from_wire(
         wire,
         keyring=q.keyring,
-        request_mac=q.request_mac,
+        request_mac=q.mac,
         one_rr_per_rrset=one_rr_per_rrset,
         ignore_trailing=ignore_trailing,
     )
@@ -1465,7 +1465,7 @@ def quic(
     r = dns.message.from_wire(
         wire,
         keyring=q.keyring,
-        request_mac=q.request_mac,
+        request_mac=q.mac,
         one_rr_per_rrset=one_rr_per_rrset,
         ignore_trailing=ignore_trailing,
     )
